@@ -5,7 +5,7 @@ use std::sync::atomic::Ordering::SeqCst;
 use std::sync::Arc;
 use std::time::Duration;
 
-use shred::{Par, ParSeq, ResourceId, RunWithPool, Seq, World};
+use shred::{Accessor, AccessorCow, DynamicSystemData, Par, ParSeq, Read, ResourceId, RunWithPool, Seq, System, SystemData, World, Write};
 
 use crate::ctx::*;
 use crate::json::J;
@@ -114,11 +114,150 @@ impl TNode {
     }
 }
 
+// ------------------------------------------------------------------------------------------------
+// Zero-sized leaf systems (unit structs with library system data): everything they need to
+// report lives in statics, keyed by the type's number. At most one of each per tree.
+// ------------------------------------------------------------------------------------------------
+
+pub const NZ: usize = 6;
+static Z_CTX: std::sync::RwLock<Option<Arc<Ctx>>> = std::sync::RwLock::new(None);
+static Z_UID: [std::sync::atomic::AtomicU32; NZ] = [const { std::sync::atomic::AtomicU32::new(0) }; NZ];
+static Z_OBS: [std::sync::atomic::AtomicU64; NZ] = [const { std::sync::atomic::AtomicU64::new(0) }; NZ];
+
+/// (reads, writes) of zero-sized leaf type `z` (all under dynamic id 0)
+pub fn z_access(z: u8) -> (Vec<Slot>, Vec<Slot>) {
+    let s = |t: usize| Slot::new(t, 0);
+    match z {
+        0 => (vec![s(0)], vec![]),
+        1 => (vec![], vec![s(1)]),
+        2 => (vec![s(2)], vec![s(3)]),
+        3 => (vec![], vec![s(4)]),
+        4 => (vec![s(0), s(5)], vec![]),
+        _ => (vec![], vec![s(6)]),
+    }
+}
+
+fn z_ctx() -> Arc<Ctx> {
+    Z_CTX.read().unwrap_or_else(|e| e.into_inner()).clone().expect("zero-sized leaves need a context")
+}
+
+fn z_run(z: usize, body: impl FnOnce(&mut crate::sys::Body)) {
+    let ctx = z_ctx();
+    let uid = Z_UID[z].load(SeqCst);
+    // the library has fetched the data already: the window starts here
+    ctx.ev(Ev::FetchEnter, uid, 1);
+    ctx.ev(Ev::FetchDone, uid, 0);
+    ctx.gate(uid, Gate::PreRun);
+    ctx.ev(Ev::RunStart, uid, 0);
+    ctx.runs[uid as usize].fetch_add(1, SeqCst);
+    ctx.last_thread[uid as usize].store(tid() as u32, SeqCst);
+    let mut b = crate::sys::Body::new(&ctx, uid, Z_OBS[z].load(SeqCst));
+    body(&mut b);
+    Z_OBS[z].store(b.finish(), SeqCst);
+    ctx.ends[uid as usize].fetch_add(1, SeqCst);
+    ctx.ev(Ev::RunEnd, uid, 0);
+    ctx.gate(uid, Gate::PostRun);
+    ctx.gate(uid, Gate::PreRelease);
+    ctx.ev(Ev::Released, uid, 0);
+}
+
+fn z_setup(z: usize) {
+    let ctx = z_ctx();
+    let uid = Z_UID[z].load(SeqCst);
+    ctx.setups[uid as usize].fetch_add(1, SeqCst);
+}
+
+macro_rules! zst_leaf {
+    ($name:ident, $z:expr, $data:ty, |$d:ident, $b:ident| $body:block) => {
+        pub struct $name;
+        impl<'a> System<'a> for $name {
+            type SystemData = $data;
+            fn run(&mut self, #[allow(unused_mut)] mut $d: Self::SystemData) {
+                z_run($z, |$b| $body);
+                drop($d);
+            }
+            fn setup(&mut self, world: &mut World) {
+                z_setup($z);
+                <Self::SystemData as SystemData>::setup(world);
+            }
+        }
+    };
+}
+
+zst_leaf!(Z0, 0, Read<'a, R0>, |d, b| { b.read(Slot::new(0, 0), &*d); });
+zst_leaf!(Z1, 1, Write<'a, R1>, |d, b| { b.write(Slot::new(1, 0), &mut *d); });
+zst_leaf!(Z2, 2, (Read<'a, R2>, Write<'a, R3>), |d, b| { b.read(Slot::new(2, 0), &*d.0); b.write(Slot::new(3, 0), &mut *d.1); });
+zst_leaf!(Z3, 3, Write<'a, R4>, |d, b| { b.write(Slot::new(4, 0), &mut *d); });
+zst_leaf!(Z4, 4, (Read<'a, R0>, Read<'a, R5>), |d, b| { b.read(Slot::new(0, 0), &*d.0); b.read(Slot::new(5, 0), &*d.1); });
+zst_leaf!(Z5, 5, Write<'a, R6>, |d, b| { b.write(Slot::new(6, 0), &mut *d); });
+
+fn build_zst(z: u8) -> Boxed {
+    match z {
+        0 => Boxed(Box::new(Z0)),
+        1 => Boxed(Box::new(Z1)),
+        2 => Boxed(Box::new(Z2)),
+        3 => Boxed(Box::new(Z3)),
+        4 => Boxed(Box::new(Z4)),
+        _ => Boxed(Box::new(Z5)),
+    }
+}
+
+// ------------------------------------------------------------------------------------------------
+// A leaf whose access set is decided at run time and may change after it was added to a tree
+// (a script system that resolves its resources in `setup`, say): a node reports what its leaves
+// declare *now*.
+// ------------------------------------------------------------------------------------------------
+
+type SharedAccess = Arc<std::sync::Mutex<(Vec<Slot>, Vec<Slot>)>>;
+
+pub struct MutAcc {
+    cur: (Vec<Slot>, Vec<Slot>),
+}
+
+impl Accessor for MutAcc {
+    fn try_new() -> Option<Self> {
+        None
+    }
+    fn reads(&self) -> Vec<ResourceId> {
+        self.cur.0.iter().map(|s| s.rid()).collect()
+    }
+    fn writes(&self) -> Vec<ResourceId> {
+        self.cur.1.iter().map(|s| s.rid()).collect()
+    }
+}
+
+pub struct MutData;
+
+impl<'a> DynamicSystemData<'a> for MutData {
+    type Accessor = MutAcc;
+    fn setup(_: &MutAcc, _: &mut World) {}
+    fn fetch(_: &MutAcc, _: &'a World) -> Self {
+        MutData
+    }
+}
+
+pub struct MutLeaf {
+    shared: SharedAccess,
+}
+
+impl<'a> System<'a> for MutLeaf {
+    type SystemData = MutData;
+    fn run(&mut self, _: MutData) {}
+    fn accessor<'b>(&'b self) -> AccessorCow<'a, 'b, Self> {
+        AccessorCow::Owned(MutAcc { cur: self.shared.lock().unwrap_or_else(|e| e.into_inner()).clone() })
+    }
+}
+
 /// Real nodes: `Par::new(c0).with(c1)` re-boxed, `.with(c2)` ...
 fn build(node: &TNode, ctx: &Arc<Ctx>) -> Boxed {
     match node {
         // two leaf flavours: accessor type without / with a default (`try_new()`)
         TNode::Leaf(s) => {
+            if let Kind::Static(z) = s.kind {
+                Z_UID[z as usize].store(s.uid, SeqCst);
+                Z_OBS[z as usize].store(0, SeqCst);
+                return build_zst(z);
+            }
             if s.uid % 2 == 0 {
                 Boxed(Box::new(HSys::new(s, ctx)))
             } else {
@@ -195,12 +334,39 @@ fn gen_tree(rng: &mut Rng) -> TNode {
     let fan = if tiny { 2 } else { rng.range(2, 6) };
     let mut g = TG { rng, uid: 1, ro };
     // the root is an inner node
-    loop {
+    let mut t = loop {
         let t = g.node(depth, all.clone(), fan);
         if !matches!(t, TNode::Leaf(_)) {
-            return t;
+            break t;
         }
+    };
+    // every third tree: some leaves are zero-sized systems (unit structs with library system
+    // data) whose resources nobody else in the tree touches
+    if g.rng.chance(1, 3) {
+        let a = t.access();
+        let mut taken: std::collections::BTreeSet<Slot> = a.reads.iter().chain(a.writes.iter()).cloned().collect();
+        let mut used = [false; NZ];
+        fn go(t: &mut TNode, rng: &mut Rng, used: &mut [bool; NZ], taken: &mut std::collections::BTreeSet<Slot>) {
+            match t {
+                TNode::Leaf(s) => {
+                    if rng.chance(1, 3) {
+                        let z = rng.below(NZ);
+                        let (r, w) = z_access(z as u8);
+                        if !used[z] && r.iter().chain(w.iter()).all(|x| !taken.contains(x)) {
+                            used[z] = true;
+                            taken.extend(r.iter().chain(w.iter()).cloned());
+                            s.reads = r;
+                            s.writes = w;
+                            s.kind = Kind::Static(z as u8);
+                        }
+                    }
+                }
+                TNode::Par(c) | TNode::Seq(c) => c.iter_mut().for_each(|x| go(x, rng, used, taken)),
+            }
+        }
+        go(&mut t, g.rng, &mut used, &mut taken);
     }
+    t
 }
 
 /// Makes some par node conflicting by giving one leaf a write to a slot a par-sibling uses.
@@ -226,6 +392,8 @@ fn poison(t: &mut TNode, rng: &mut Rng) -> bool {
                         }
                     }
                     let l = first_leaf(&mut c[i]);
+                    // (a zero-sized leaf cannot change what it declares: it becomes an ordinary one)
+                    l.kind = Kind::Dyn;
                     if a.writes.contains(&sl) && rng.chance(1, 2) {
                         if !l.reads.contains(&sl) && !l.writes.contains(&sl) {
                             l.reads.push(sl);
@@ -276,6 +444,9 @@ fn case(rng: &mut Rng, pools: &mut std::collections::HashMap<usize, Pool>, rep: 
     rep.metric_max("depth", tree.depth() as i64);
     rep.metric_max("leaves", leaves.len() as i64);
     let ctx = Ctx::new(n_uids, leaves.len() * 6 + 64);
+    *Z_CTX.write().unwrap_or_else(|e| e.into_inner()) = Some(ctx.clone());
+    let zst_leaves = leaves.iter().filter(|l| matches!(l.kind, Kind::Static(_))).count();
+    rep.metric("zero_sized_leaves", zst_leaves as i64);
     let expect_panic = tree.first_conflicting_with();
     let built = catch_unwind(AssertUnwindSafe(|| build(&tree, &ctx)));
     let detail = |tree: &TNode| J::obj().set("tree", tree.to_json());
@@ -301,6 +472,13 @@ fn case(rng: &mut Rng, pools: &mut std::collections::HashMap<usize, Pool>, rep: 
         (Ok(r), false) => r,
     };
     let _ = poisoned;
+    exercise(&tree, &leaves, root, &ctx, nontrivial, rng, pools, rep, case_no);
+}
+
+/// Everything that is checked on a tree that was accepted: reported access, setup, dispatches.
+#[allow(clippy::too_many_arguments)]
+fn exercise(tree: &TNode, leaves: &[SysSpec], root: Boxed, ctx: &Arc<Ctx>, nontrivial: bool, rng: &mut Rng, pools: &mut std::collections::HashMap<usize, Pool>, rep: &mut Report, case_no: u64) {
+    let detail = |tree: &TNode| J::obj().set("tree", tree.to_json());
     // ---- reads()/writes() of the root ----
     let (mut r, mut w) = (Vec::new(), Vec::new());
     root.reads(&mut r);
@@ -312,7 +490,7 @@ fn case(rng: &mut Rng, pools: &mut std::collections::HashMap<usize, Pool>, rep: 
     want_r.sort();
     want_w.sort();
     if r != want_r || w != want_w {
-        rep.violation("root_access", &format!("the root reports {} reads / {} writes, its leaves declare {} / {} (as multisets they differ)", r.len(), w.len(), want_r.len(), want_w.len()), case_no, detail(&tree));
+        rep.violation("root_access", &format!("the root reports {} reads / {} writes, its leaves declare {} / {} (as multisets they differ)", r.len(), w.len(), want_r.len(), want_w.len()), case_no, detail(tree));
         return;
     }
     // ---- setup reaches every leaf; dispatch from outside and from inside the pool ----
@@ -328,7 +506,7 @@ fn case(rng: &mut Rng, pools: &mut std::collections::HashMap<usize, Pool>, rep: 
             world = World::empty();
         }
         if round == 3 {
-            for l in &leaves {
+            for l in leaves {
                 for sl in l.reads.iter().chain(l.writes.iter()) {
                     if rng.chance(1, 3) {
                         remove_slot(&mut world, *sl);
@@ -341,15 +519,15 @@ fn case(rng: &mut Rng, pools: &mut std::collections::HashMap<usize, Pool>, rep: 
         } else {
             shred::RunNow::setup(&mut ps, &mut world);
         }
-        for l in &leaves {
+        for l in leaves {
             let n = ctx.setups[l.uid as usize].load(SeqCst);
             if n != round {
-                rep.violation("setup_missed_leaf", &format!("after {} call(s) of ParSeq::setup leaf u{} has been set up {} times", round, l.uid, n), case_no, detail(&tree));
+                rep.violation("setup_missed_leaf", &format!("after {} call(s) of ParSeq::setup leaf u{} has been set up {} times", round, l.uid, n), case_no, detail(tree));
                 return;
             }
             for sl in l.reads.iter().chain(l.writes.iter()) {
                 if probe(&world, *sl) == Probe::Absent {
-                    rep.violation("setup_left_resource_missing", &format!("after {} call(s) of ParSeq::setup the resource {} of leaf u{} does not exist", round, sl.label(), l.uid), case_no, detail(&tree));
+                    rep.violation("setup_left_resource_missing", &format!("after {} call(s) of ParSeq::setup the resource {} of leaf u{} does not exist", round, sl.label(), l.uid), case_no, detail(tree));
                     return;
                 }
             }
@@ -357,7 +535,7 @@ fn case(rng: &mut Rng, pools: &mut std::collections::HashMap<usize, Pool>, rep: 
     }
     rep.metric("setup_rounds", rounds as i64);
     let mut pairs = Vec::new();
-    seq_pairs(&tree, &mut pairs);
+    seq_pairs(tree, &mut pairs);
     rep.metric("seq_adjacent_pairs", pairs.len() as i64);
     let ndisp = rng.range(2, 3);
     for di in 0..ndisp {
@@ -381,14 +559,14 @@ fn case(rng: &mut Rng, pools: &mut std::collections::HashMap<usize, Pool>, rep: 
         if let Err(p) = res {
             let msg = payload_str(&*p);
             let kind = if classify(&msg) == PanicKind::BorrowConflict { "borrow_conflict_panic" } else { "dispatch_panicked" };
-            rep.violation(kind, &format!("dispatching a conflict-free tree panicked: {}", msg), case_no, detail(&tree));
+            rep.violation(kind, &format!("dispatching a conflict-free tree panicked: {}", msg), case_no, detail(tree));
             return;
         }
         let now = ctx.run_counts();
-        for l in &leaves {
+        for l in leaves {
             let d = now[l.uid as usize] - before[l.uid as usize];
             if d != 1 {
-                rep.violation(if d == 0 { "leaf_skipped" } else { "leaf_repeated" }, &format!("leaf u{} ran {} times in one dispatch of the tree", l.uid, d), case_no, detail(&tree));
+                rep.violation(if d == 0 { "leaf_skipped" } else { "leaf_repeated" }, &format!("leaf u{} ran {} times in one dispatch of the tree", l.uid, d), case_no, detail(tree));
                 return;
             }
         }
@@ -404,7 +582,7 @@ fn case(rng: &mut Rng, pools: &mut std::collections::HashMap<usize, Pool>, rep: 
                     "seq_order",
                     &format!("in a seq node a leaf of the later child (leaves {:?}) entered at ts {} before every leaf of the earlier child (leaves {:?}) had ended (ts {})", b, b_start, a, a_end),
                     case_no,
-                    detail(&tree).set("events", J::Arr(evs.iter().take(60).map(|e| J::Str(e.show())).collect())),
+                    detail(tree).set("events", J::Arr(evs.iter().take(60).map(|e| J::Str(e.show())).collect())),
                 );
                 return;
             }
@@ -415,7 +593,7 @@ fn case(rng: &mut Rng, pools: &mut std::collections::HashMap<usize, Pool>, rep: 
                 if Access::of(&leaves[i].reads, &leaves[i].writes).conflicts(&Access::of(&leaves[j].reads, &leaves[j].writes)) {
                     if let (Some(x), Some(y)) = (win(leaves[i].uid), win(leaves[j].uid)) {
                         if x.overlaps(&y) {
-                            rep.violation("conflicting_leaves_overlap", &format!("conflicting leaves u{} and u{} overlapped", leaves[i].uid, leaves[j].uid), case_no, detail(&tree));
+                            rep.violation("conflicting_leaves_overlap", &format!("conflicting leaves u{} and u{} overlapped", leaves[i].uid, leaves[j].uid), case_no, detail(tree));
                             return;
                         }
                     }
@@ -424,7 +602,7 @@ fn case(rng: &mut Rng, pools: &mut std::collections::HashMap<usize, Pool>, rep: 
         }
         for v in ctx.take_violations() {
             if v.starts_with("torn") {
-                rep.violation("torn_value", &v, case_no, detail(&tree));
+                rep.violation("torn_value", &v, case_no, detail(tree));
                 return;
             }
         }
@@ -435,6 +613,129 @@ fn case(rng: &mut Rng, pools: &mut std::collections::HashMap<usize, Pool>, rep: 
     }
     if rep.samples.len() < rep.max_samples && nontrivial && leaves.len() < 10 {
         rep.sample(J::obj().set("case", case_no).set("tree", tree.to_json()).set("pool", pool_size).set("dispatches", ndisp).set("seq_adjacent_pairs", pairs.len()));
+    }
+}
+
+// ------------------------------------------------------------------------------------------------
+// Statically typed trees (the `par!` / `seq!` macros over concrete leaf types, zero-sized ones
+// included): the run-time trees above box every child, which hides the children's own types.
+// ------------------------------------------------------------------------------------------------
+
+fn static_tree_case(rng: &mut Rng, pools: &mut std::collections::HashMap<usize, Pool>, rep: &mut Report, case_no: u64) {
+    use shred::{par, seq};
+    let zl = |z: u8| {
+        let (r, w) = z_access(z);
+        TNode::Leaf(SysSpec { uid: z as u32 + 1, name: String::new(), deps: vec![], reads: r, writes: w, time: 3, kind: Kind::Static(z) })
+    };
+    // two ordinary (non-zero-sized) leaves on resources no zero-sized leaf touches
+    let h = |uid: u32, dy: usize| SysSpec { uid, name: String::new(), deps: vec![], reads: vec![Slot::new(7, dy)], writes: vec![Slot::new(6, dy + 1)], time: 3, kind: Kind::Dyn };
+    let (ha, hb) = (h(8, 1), h(9, 2));
+    let ctx = Ctx::new(12, 256);
+    *Z_CTX.write().unwrap_or_else(|e| e.into_inner()) = Some(ctx.clone());
+    for z in 0..NZ {
+        Z_UID[z].store(z as u32 + 1, SeqCst);
+        Z_OBS[z].store(0, SeqCst);
+    }
+    let which = rng.below(9);
+    let built: Result<(TNode, Boxed), _> = catch_unwind(AssertUnwindSafe(|| match which {
+        0 => (TNode::Seq(vec![zl(0), zl(1), zl(3)]), Boxed(Box::new(seq![Z0, Z1, Z3,]))),
+        1 => (TNode::Par(vec![zl(0), zl(1), zl(3)]), Boxed(Box::new(par![Z0, Z1, Z3,]))),
+        2 => (TNode::Seq(vec![TNode::Par(vec![zl(0), zl(1)]), zl(3)]), Boxed(Box::new(seq![par![Z0, Z1,], Z3,]))),
+        3 => (TNode::Par(vec![TNode::Seq(vec![zl(1), zl(3)]), zl(0)]), Boxed(Box::new(par![seq![Z1, Z3,], Z0,]))),
+        4 => (TNode::Seq(vec![zl(1), TNode::Seq(vec![zl(3), zl(5)]), zl(0)]), Boxed(Box::new(seq![Z1, seq![Z3, Z5,], Z0,]))),
+        5 => (
+            TNode::Par(vec![TNode::Seq(vec![zl(0), zl(2)]), TNode::Seq(vec![zl(1), zl(5)]), zl(3)]),
+            Boxed(Box::new(par![seq![Z0, Z2,], seq![Z1, Z5,], Z3,])),
+        ),
+        6 => (
+            TNode::Seq(vec![TNode::Leaf(ha.clone()), zl(1), TNode::Leaf(hb.clone())]),
+            Boxed(Box::new(seq![HSys::new(&ha, &ctx), Z1, HSys::new(&hb, &ctx),])),
+        ),
+        7 => (
+            TNode::Par(vec![TNode::Leaf(ha.clone()), TNode::Seq(vec![zl(2), TNode::Leaf(hb.clone()), zl(5)])]),
+            Boxed(Box::new(par![HSys::new(&ha, &ctx), seq![Z2, HSysD::new(&hb, &ctx), Z5,],])),
+        ),
+        _ => (TNode::Seq(vec![zl(4), zl(3), zl(2), zl(1), zl(5)]), Boxed(Box::new(seq![Z4, Z3, Z2, Z1, Z5,]))),
+    }));
+    rep.evaluations += 1;
+    rep.metric("statically_typed_trees", 1);
+    let (tree, root) = match built {
+        Ok(x) => x,
+        Err(p) => {
+            rep.violation("with_rejected_compatible_child", &format!("building conflict-free static tree #{} panicked: {}", which, payload_str(&*p)), case_no, J::Null);
+            return;
+        }
+    };
+    let mut lv = Vec::new();
+    tree.leaves(&mut lv);
+    let leaves: Vec<SysSpec> = lv.into_iter().cloned().collect();
+    exercise(&tree, &leaves, root, &ctx, true, rng, pools, rep, case_no);
+}
+
+/// A leaf changes its (run-time) access set after it was added to a node: the node's reads() and
+/// writes() follow, and so does the conflict check of a later `Par::with`.
+fn mutable_access_case(rng: &mut Rng, rep: &mut Report, case_no: u64) {
+    rep.evaluations += 1;
+    let mut pool: Vec<Slot> = Slot::all().collect();
+    rng.shuffle(&mut pool);
+    let mut take = |n: usize| -> Vec<Slot> { (0..n).filter_map(|_| pool.pop()).collect() };
+    let (a_r0, a_w0) = (take(rng.range(0, 2)), take(rng.range(1, 2)));
+    let (b_r, b_w) = (take(rng.range(0, 2)), take(rng.range(0, 2)));
+    let (a_r1, a_w1) = (take(rng.range(0, 2)), take(rng.range(1, 2)));
+    let shared_a: SharedAccess = Arc::new(std::sync::Mutex::new((a_r0.clone(), a_w0.clone())));
+    let shared_b: SharedAccess = Arc::new(std::sync::Mutex::new((b_r.clone(), b_w.clone())));
+    let par_root = rng.chance(2, 3);
+    let a_first = rng.chance(1, 2);
+    let (la, lb) = (Boxed(Box::new(MutLeaf { shared: shared_a.clone() })), Boxed(Box::new(MutLeaf { shared: shared_b.clone() })));
+    let (first, second) = if a_first { (la, lb) } else { (lb, la) };
+    let built = catch_unwind(AssertUnwindSafe(|| if par_root { Boxed(Box::new(Par::new(first).with(second))) } else { Boxed(Box::new(Seq::new(first).with(second))) }));
+    let root = match built {
+        Ok(r) => r,
+        Err(p) => {
+            rep.violation("with_rejected_compatible_child", &format!("two leaves with disjoint access were rejected: {}", payload_str(&*p)), case_no, J::Null);
+            return;
+        }
+    };
+    let sorted = |v: Vec<ResourceId>| {
+        let mut v = v;
+        v.sort();
+        v
+    };
+    let rids = |a: &[Slot], b: &[Slot]| sorted(a.iter().chain(b.iter()).map(|s| s.rid()).collect());
+    let report = |root: &Boxed| {
+        let (mut r, mut w) = (Vec::new(), Vec::new());
+        root.reads(&mut r);
+        root.writes(&mut w);
+        (sorted(r), sorted(w))
+    };
+    let d = |what: &str| J::obj().set("scenario", what).set("root", if par_root { "par" } else { "seq" });
+    let (r, w) = report(&root);
+    if r != rids(&a_r0, &b_r) || w != rids(&a_w0, &b_w) {
+        rep.violation("root_access", "a two-leaf node does not report the union of its leaves' reads / writes", case_no, d("before the change"));
+        return;
+    }
+    // the leaf re-decides what it accesses (as a script system does in its setup)
+    *shared_a.lock().unwrap() = (a_r1.clone(), a_w1.clone());
+    let (r, w) = report(&root);
+    if r != rids(&a_r1, &b_r) || w != rids(&a_w1, &b_w) {
+        rep.violation(
+            "root_access:after_a_leaf_changed_its_access",
+            &format!("a leaf changed its run-time access set after it was added; the node still reports {} reads / {} writes, its leaves now declare {} / {}", r.len(), w.len(), rids(&a_r1, &b_r).len(), rids(&a_w1, &b_w).len()),
+            case_no,
+            d("after the change"),
+        );
+        return;
+    }
+    // a third child under a par node: conflicts are judged against what the children declare now
+    let vs_new = rng.chance(1, 2);
+    let c_w = if vs_new { vec![a_w1[0]] } else { vec![a_w0[0]] };
+    let shared_c: SharedAccess = Arc::new(std::sync::Mutex::new((vec![], c_w.clone())));
+    let res = catch_unwind(AssertUnwindSafe(move || Boxed(Box::new(Par::new(root).with(Boxed(Box::new(MutLeaf { shared: shared_c })))))));
+    rep.metric("mutable_access_cases", 1);
+    match (res, vs_new) {
+        (Ok(_), true) => rep.violation("with_accepted_conflicting_child", "Par::with accepted a child that writes what a leaf of the node (after changing its access set) writes now", case_no, d("third child vs. the new access")),
+        (Err(p), false) => rep.violation("with_rejected_compatible_child", &format!("Par::with rejected a child that only touches what a leaf used to write before it changed its access set: {}", payload_str(&*p)), case_no, d("third child vs. the old access")),
+        _ => rep.nontrivial(mix(0x16a, (par_root as u64) << 2 | (a_first as u64) << 1 | vs_new as u64)),
     }
 }
 
@@ -524,6 +825,10 @@ pub fn run(args: &Args) -> i32 {
         let mut rng = Rng::new(args.case_seed(c));
         if c % 50 == 49 && !crate::props::sched::tiny() {
             guard_case(&mut rep, c, |rep| overlap_case(&mut rng, rep, c));
+        } else if c % 25 == 12 {
+            guard_case(&mut rep, c, |rep| mutable_access_case(&mut rng, rep, c));
+        } else if c % 25 == 17 {
+            guard_case(&mut rep, c, |rep| static_tree_case(&mut rng, &mut pools, rep, c));
         } else {
             guard_case(&mut rep, c, |rep| case(&mut rng, &mut pools, rep, c));
         }
